@@ -329,7 +329,6 @@ theorem lexF_fuel2 (n m : Nat) (s : List Nat) (hn : s.length ≤ n) (hm : s.leng
         simp only [lexF]
         cases hl : lexOne (c :: cs) with
         | eof => rfl
-        | tooLong => rfl
         | tok k j =>
           have hp := lexOne_pos _ _ _ hl
           simp only [List.length_cons] at hn hm
@@ -490,7 +489,6 @@ theorem lexF_upper (n : Nat) (s : List Nat) : lexF n (s.map upper) = (lexF n s).
     simp only [lexF, lexOne_upper]
     cases lexOne s with
     | eof => rfl
-    | tooLong => rfl
     | tok k j => simp only [List.map_cons, Tok.fold, ← List.map_take, ← List.map_drop, ih]
 
 /-- Lexing commutes with case folding: the tokens of the upper-cased text are the tokens of the text,
@@ -503,6 +501,17 @@ and token texts equal up to case. -/
 theorem case_variants_same_tokens (s s' : List Nat) (h : s.map upper = s'.map upper) :
     (lex s).map Tok.fold = (lex s').map Tok.fold := by
   rw [← lex_fold_commute, ← lex_fold_commute, h]
+
+/-- The 40-character limit on names looks only at the length of the token, which no layout transformation
+changes: case folding keeps it, and (`case_variants_same_tokens`) case variants have the same token lengths. -/
+theorem name_limit_fold (t : Tok) : nameTooLong t.fold = nameTooLong t := by
+  simp [nameTooLong, Tok.fold]
+
+/-- a word of 41 letters is ONE identifier token (it may stand in a string literal or a comment), too long for a name;
+40 letters are fine -/
+example :
+    lex (List.replicate 41 97) = [⟨.ident, List.replicate 41 97⟩] ∧ nameTooLong ⟨.ident, List.replicate 41 97⟩ = true
+    ∧ nameTooLong ⟨.ident, List.replicate 40 97⟩ = false := by decide +kernel
 
 /-! ## 4. DEFtype letter ranges -/
 
